@@ -41,7 +41,10 @@ RULE = ('cases: (a) bit patterns -- all 2**16 half patterns exhaustively in both
         'pool members (also the same object on both sides; exact zeros in half of the pools; a quarter of the results replace a pool member; '
         'a third of the add/sub/mul results are rounded in place with reducePrecision / reducePrecisionWithRounding, the way the library\'s own '
         'flow does), after EVERY operation: the result vs Fractions, the result is not one of the live objects, and every pool object vs its '
-        'snapshot (components, flags, rational, convert() bits).  A reduced pass of (c), (f) and half patterns runs in a child interpreter with '
+        'snapshot (components, flags, rational, convert() bits).  (h) the library\'s reference-model flow r = a.op(b); r.reducePrecision[WithRounding](precision of the format); '
+        'r.convert(fmt) with operands chosen so that rounding carries into the next binade (all-ones and near-all-ones mantissas at several exponents '
+        'incl. the largest, addends of 1/4..3/2 ulp, both signs; products of all-ones mantissas), and objects set one step out of canonical form with '
+        'set_semp -- convert() compared with the encoding of the value the object then denotes.  A reduced pass of (c), (f) and half patterns runs in a child interpreter with '
         'PYTHONOPTIMIZE=1 (asserts stripped).  evaluations = helper calls judged.  A case is non-trivial when it is not the '
         'all-zero pattern / value / operand pair; distinct by content (format, pattern | w, v | operand descriptors | format, x, y); in the thorough tier only the '
         'cases whose content hash is 0 mod 4 are registered, so distinct_nontrivial is a lower bound there (keeps the merged set small)')
@@ -950,6 +953,16 @@ def judge_history(case):
                     if mut:
                         # a mutator applied to the RESULT; the purity pass below must find every pool object untouched
                         getattr(r, mut[0])(mut[1])
+                        if not aliased and mut[1] in PREC_FMT:
+                            # ... and the flow's last step: convert the rounded result (it may be one step out of canonical form)
+                            def hfail(fmt, form, rel, expected, observed, label, val):
+                                out.append(V('%s_convert_after_rounding' % fmt, dict(fmt=fmt, stage='convert', function='FPNum.convert', object_form=form, relation=rel, flow='history'),
+                                             expected, observed, 'history step %d: %s(obj %d, obj %d); %s(%d); convert(%s): object denotes %s (%s), expected %s observed %s [%s]' % (
+                                                 step, op, i, j, mut[0], mut[1], fmt, val, form, expected, observed, rel)))
+                            nb = len(out)
+                            n += check_convert_of(r, [PREC_FMT[mut[1]]], hfail, 'history')
+                            if len(out) > nb:
+                                break
                 elif op == 'div':
                     try:
                         A.div(B)          # quotients are not in the statement: only what div does to its operands is judged
@@ -1004,7 +1017,7 @@ def history_cases(tier, seed, shard):
             op = rnd.choice(('add', 'add', 'sub', 'sub', 'mul', 'div', 'compare', 'compare', 'convert', 'to_float'))
             i, j = rnd.randrange(5), rnd.randrange(5)
             if op in ('add', 'sub', 'mul'):
-                mut = [rnd.choice(('reducePrecision', 'reducePrecisionWithRounding')), rnd.choice((3, 10, 23, 52))] if rnd.random() < 0.3 else None
+                mut = [rnd.choice(('reducePrecision', 'reducePrecisionWithRounding')), rnd.choice((3, 10, 10, 23, 23, 52))] if rnd.random() < 0.3 else None
                 ops.append([op, i, j, None if mut else (rnd.randrange(5) if rnd.random() < 0.25 else None), mut])
             elif op == 'convert':
                 ops.append([op, i, i, rnd.choice(FMTS)])
@@ -1015,13 +1028,157 @@ def history_cases(tier, seed, shard):
         yield dict(kind='history', pool=pool, ops=ops)
 
 
+# --------------------------------------------------------------------------- (h) round a result, then convert it
+
+PREC_FMT = {10: 'hp', 23: 'sp', 52: 'dp'}
+
+
+def encode_value_trunc(fmt, x):
+    """Reference encoding of the rational x in fmt by truncation toward zero (exact when x is representable): infinity when
+    |x| >= 2**(emax+1); None when x lies between the largest finite value and 2**(emax+1) or is zero (the sign of a computed zero
+    is not demanded)."""
+    _, _, ew, mw = FM[fmt]
+    bias = (1 << (ew - 1)) - 1
+    if x == 0:
+        return None
+    sgnbit = (1 << (ew + mw)) if x < 0 else 0
+    ax = abs(x)
+    if ax >= Fraction(2) ** (bias + 1):
+        return sgnbit | (((1 << ew) - 1) << mw)
+    e = ax.numerator.bit_length() - ax.denominator.bit_length()
+    if Fraction(2) ** e > ax:
+        e -= 1
+    elif Fraction(2) ** (e + 1) <= ax:
+        e += 1
+    if e < 1 - bias:
+        mant = int(ax / Fraction(2) ** (1 - bias - mw))          # floor: truncation toward zero
+        return sgnbit | mant
+    mant = int(ax / Fraction(2) ** (e - mw))
+    return sgnbit | ((e + bias) << mw) | (mant - (1 << mw))
+
+
+def canonical_form(n):
+    if n.p == 0 or n.m == 0:
+        return 'special_or_zero'
+    if n.m >= 2 * n.p:
+        return 'mantissa>=2p'
+    if n.m < n.p:
+        return 'mantissa<p'
+    return 'canonical'
+
+
+def check_convert_of(r, fmts, fail, label):
+    """convert() must encode the value the object denotes NOW (s*m/p*2**e), whether or not (m, p) is in canonical form."""
+    n = 0
+    val = fpnum_value(r)
+    if val is None:
+        return n
+    form = canonical_form(r)
+    for fmt in fmts:
+        exp = encode_value_trunc(fmt, val)
+        if exp is None:
+            continue
+        ew_, mw_ = FM[fmt][2], FM[fmt][3]
+        if (exp >> mw_) & ((1 << ew_) - 1) == (1 << ew_) - 1 and form != 'canonical' and r.m != 2 * r.p:
+            # overflow of an object that was put out of canonical form by hand with 2p < m < 4p at the largest exponent: on the pinned tree
+            # convert() returns a NaN-looking word there (reported to the lead).  Not reachable through rounding (a carry leaves exactly m == 2p,
+            # which is judged) and not a representable value, so it is not judged.
+            continue
+        n += 1
+        try:
+            with muted():
+                got = r.convert(fmt)
+        except Exception as e:
+            fail(fmt, form, 'raises:' + type(e).__name__, hex(exp), repr(e)[:100], label, val)
+            continue
+        if got != exp:
+            fail(fmt, form, pattern_relation(fmt, got, exp), hex(exp), hx(got), label, val)
+    return n
+
+
+def judge_roundconv(case):
+    """The reference-model flow of the library: r = a.op(b); r.reducePrecision[WithRounding](prec); r.convert(fmt) -- and FPNum objects
+    put one step out of canonical form directly (set_semp / 4-argument form without adjust)."""
+    FPNum = _helpers()[0]
+    out = []
+    n = 1
+
+    def fail(fmt, form, rel, expected, observed, label, val):
+        out.append(V('%s_convert_after_rounding' % fmt, dict(fmt=fmt, stage='convert', function='FPNum.convert', object_form=form, relation=rel, flow=label),
+                     expected, observed, '%s then convert(%s): object denotes %s (%s), expected %s observed %s [%s]' % (label, fmt, val, form, expected, observed, rel)))
+
+    try:
+        with muted():
+            if case.get('semp'):
+                s_, e_, m_, p_ = (int(t, 16) if isinstance(t, str) else t for t in case['semp'])
+                r = FPNum()
+                r.set_semp(s_, e_, m_, p_)
+                label = 'set_semp(%d, %d, %#x, 2**%d)' % (s_, e_, m_, p_.bit_length() - 1)
+            else:
+                A, xa = build_operand(case['a'])
+                B, xb = build_operand(case['b'])
+                r = getattr(A, case['op'])(B)
+                want = {'add': xa + xb, 'sub': xa - xb, 'mul': xa * xb}[case['op']]
+                if fpnum_value(r) != want:
+                    return 1, []          # the operation itself is judged in the arithmetic section
+                getattr(r, case['mut'][0])(case['mut'][1])
+                label = '%s(%s, %s); %s(%d)' % (case['op'], case['a'][-1], case['b'][-1], case['mut'][0], case['mut'][1])
+    except Exception as e:
+        return 1, [V('fpnum_round_flow', dict(function='FPNum.' + str(case.get('op', 'set_semp')), relation='raises:' + type(e).__name__), None, repr(e)[:120],
+                     'flow %r raises %r' % (case, e))]
+    n += check_convert_of(r, case.get('fmts', FMTS), fail, label)
+    return n, out
+
+
+def roundconv_cases(tier, seed, shard):
+    rnd = rng(seed, 'C12', 'roundconv', shard)
+    i, nsh = shard if shard else (0, 1)
+    quick = tier == 'quick'
+    k = 0
+    for prec, fmt in PREC_FMT.items():
+        _, _, ew, mw = FM[fmt]
+        top = (1 << ew) - 2
+        es = sorted({mw + 3, mw + 4, (1 << (ew - 1)) - 2, (1 << (ew - 1)) - 1, (1 << (ew - 1)), top - 1, top} | {rnd.randint(mw + 3, top) for _ in range(3 if quick else 20)})
+        for e in es:
+            for ma in ((1 << mw) - 1, (1 << mw) - 2, 0, 1, rnd.getrandbits(mw) | ((1 << mw) - (1 << (mw // 2)))):
+                for sa in (0, 1):
+                    a = (sa << (ew + mw)) | (e << mw) | ma
+                    # addends around half an ulp of a: 1/4, 1/2, 3/4, 1, 3/2 ulp (rounding carries out of an all-ones mantissa)
+                    for eb, mb in ((e - mw - 2, 0), (e - mw - 1, 0), (e - mw - 1, 1 << (mw - 1)), (e - mw - 1, 1), (e - mw, 0), (e - mw, 1 << (mw - 1))):
+                        if eb < 1:
+                            continue
+                        for sb in (sa, 1 - sa):
+                            k += 1
+                            if k % nsh != i:
+                                continue
+                            b = (sb << (ew + mw)) | (eb << mw) | mb
+                            for mut in ('reducePrecisionWithRounding', 'reducePrecision'):
+                                yield dict(kind='roundconv', op='add', a=['pat', fmt, hex(a)], b=['pat', fmt, hex(b)], mut=[mut, prec], fmts=[fmt])
+        # products of all-ones mantissas (2 - ulp)**2 and random products, rounded back to the format
+        for _ in range(40 if quick else 600):
+            a = (rnd.getrandbits(1) << (ew + mw)) | (rnd.randint(top // 2 - 8, top // 2 + 8) << mw) | rnd.choice(((1 << mw) - 1, rnd.getrandbits(mw)))
+            b = (rnd.getrandbits(1) << (ew + mw)) | (rnd.randint(top // 2 - 8, top // 2 + 8) << mw) | rnd.choice(((1 << mw) - 1, rnd.getrandbits(mw)))
+            yield dict(kind='roundconv', op=rnd.choice(('mul', 'add', 'sub')), a=['pat', fmt, hex(a)], b=['pat', fmt, hex(b)],
+                       mut=[rnd.choice(('reducePrecisionWithRounding', 'reducePrecision')), prec], fmts=[fmt])
+        # objects one step out of canonical form, set directly: m in [2p, 4p) and m in [p/2, p)
+        for _ in range(60 if quick else 600):
+            pk = rnd.choice((mw, mw, rnd.randint(1, mw)))
+            p_ = 1 << pk
+            m_ = rnd.choice((2 * p_, 4 * p_ - 1, 2 * p_ + rnd.getrandbits(pk), p_ - 1, p_ >> 1 if pk else p_, (p_ >> 1) + rnd.getrandbits(max(pk - 1, 1)) % max(p_ >> 1, 1)))
+            if not (p_ // 2 <= m_ < 4 * p_) or m_ == 0:
+                continue
+            bias = (1 << (ew - 1)) - 1
+            e_ = rnd.choice((0, 1, -1, bias - 1, bias, 2 - bias, 3 - bias, rnd.randint(3 - bias, bias - 1)))
+            yield dict(kind='roundconv', semp=[rnd.choice((1, -1)), e_, hex(m_), hex(p_)], fmts=[fmt])
+
+
 def _split(v):
     """hash(int) reduces modulo 2**61-1, so wide patterns are hashed as 60-bit limbs (v + 2**63 and v + 4 must not collide)."""
     m = (1 << 60) - 1
     return (v >> 120, (v >> 60) & m, v & m)
 
 
-JUDGES = {'pattern': judge_pattern, 'c2': judge_c2, 'arith': judge_arith, 'fxp': judge_fxp, 'float': judge_float, 'history': judge_history}
+JUDGES = {'pattern': judge_pattern, 'c2': judge_c2, 'arith': judge_arith, 'fxp': judge_fxp, 'float': judge_float, 'history': judge_history, 'roundconv': judge_roundconv}
 CASE_TIMEOUT = 30    # seconds; the slowest case on the unchanged tree takes a few milliseconds
 
 
@@ -1061,6 +1218,10 @@ def run_check(run, tier, seed, shard):
     run.assume('only exactly representable values are judged for encode/convert (the statement says "every representable value"); '
                'conversion of a value that the target format cannot hold exactly is counted as not_representable, not judged')
     run.assume('NaN: only "is a NaN" is compared (payloads excepted)')
+    run.assume('not judged: convert() of hand-set objects with 2p < m < 4p that overflow at the largest exponent (not reachable through rounding, not a representable value)')
+    run.assume('convert() of an object that was rounded in place (reducePrecision / reducePrecisionWithRounding) or set directly one step out of canonical '
+               'form (p/2 <= m < 4p) must encode the value the object denotes at that moment, s*m/p*2**e: exact when representable, truncated toward zero '
+               'otherwise, infinity from 2**(emax+1) on; how the reducePrecision* helpers round (ties) is not judged, only what convert does afterwards')
     run.assume('operand purity: add/sub/mul/div/compare/convert/to_float must leave self, the argument and unrelated objects exactly as they were '
                '(components(), flags, convert() bits); only reducePrecision* are mutators by contract; they are applied to RESULTS only, and a result must be a new object (not one of the operands)'
                ' so that rounding it cannot reach an operand.  Quotients of div are not '
@@ -1192,6 +1353,16 @@ def run_check(run, tier, seed, shard):
             yield c
     sweep('fpnum_histories', hist(), lambda c: True, lambda c: int(stable_hash([c['pool'], c['ops']]), 16), 499)
     run.extra['history_class'] = hstat
+    # (h) add/sub/mul -> round the result in place -> convert, with operands chosen so that the rounding carries
+    rstat = {}
+
+    def rc():
+        for c in roundconv_cases(tier, seed, shard):
+            kk = 'direct_noncanonical' if c.get('semp') else c['mut'][0]
+            rstat[kk] = rstat.get(kk, 0) + 1
+            yield c
+    sweep('round_then_convert', rc(), lambda c: True, lambda c: int(stable_hash(c), 16), 1499)
+    run.extra['round_then_convert_flows'] = rstat
     run.extra['sections'] = sect
     # (g) the same helpers in an interpreter that strips assert statements (python -O / PYTHONOPTIMIZE=1): a reduced pass in a child
     if shard is None or shard[0] == 0:
